@@ -126,11 +126,40 @@ def run_translators():
         # main.go prints "translator <name>: <error>" per failing generator; a check is affected only
         # when its spec lists that generator under "gen"
         failed = re.findall(r"^translator (\w+):", o, flags=re.M)
+        del REF_USED[:]
         for name in failed:
-            # a table that cannot be regenerated must not keep its stale copy
-            write_if_changed(os.path.join(COQ, "Gen", name + ".v"), "(* translator failed on the current source *)\nDefinition translator_failed := tt.\n")
+            # a table that cannot be regenerated must not keep its stale copy.  The failure itself is reported as a broken
+            # obligation by run_check; to be able to SEARCH for a failing input all the same (the models of C07, C08, C11, C12
+            # and C15 are instantiated with these tables), the table of the reference tree (coq/GenRef/<name>.v, committed,
+            # written by `./check genref` from the unchanged /repo) stands in for it for the rest of this run - marked as such.
+            ref = os.path.join(COQ, "GenRef", name + ".v")
+            if os.path.exists(ref) and not os.environ.get("VERIF_NO_GENREF"):
+                write_if_changed(os.path.join(COQ, "Gen", name + ".v"),
+                                 "(* REFERENCE TABLE: the translator failed on the current source; this is the table of the reference tree,\n"
+                                 "   used only to search for a failing input. The run reports the broken translation whatever the search finds. *)\n"
+                                 + open(ref).read())
+                REF_USED.append(name)
+            else:
+                write_if_changed(os.path.join(COQ, "Gen", name + ".v"), "(* translator failed on the current source *)\nDefinition translator_failed := tt.\n")
         return False, "translator failed (%s):\n%s" % (",".join(failed) or "build", o)
+    del REF_USED[:]
     return True, o
+
+
+REF_USED = []
+
+
+def genref():
+    """./check genref: regenerate coq/GenRef/*.v from the tables the translators give on the current tree (run on the unchanged /repo, then commit)"""
+    ok, o = run_translators()
+    if not ok:
+        print(o)
+        return 1
+    os.makedirs(os.path.join(COQ, "GenRef"), exist_ok=True)
+    for f in sorted(os.listdir(os.path.join(COQ, "Gen"))):
+        if f.endswith(".v"):
+            write_if_changed(os.path.join(COQ, "GenRef", f), open(os.path.join(COQ, "Gen", f)).read())
+    return 0
 
 
 def coq_makefile():
@@ -506,6 +535,8 @@ def main():
         tier = "quick"
     if pid == "setup":
         return setup()
+    if pid == "genref":
+        return genref()
     if pid not in PROPS:
         print("unknown property", pid)
         return 2
@@ -556,7 +587,11 @@ def run_check(pid, tier, seed, replay):
         if mine:
             notes.append(o)
             violations.append(("proof-break", "translator " + ",".join(mine), {"error": o[-3000:],
-                               "obligation": "Gen/%s.v could not be regenerated from the current source" % mine[0]}, True))
+                               "obligation": "Gen/%s.v could not be regenerated from the current source" % mine[0],
+                               "reference_tables_used_for_the_search": [n for n in REF_USED if n in mine]}, True))
+            if any(n in REF_USED for n in mine):
+                m2 = "tables %s stand in from coq/GenRef (reference tree) so that model and implementation can still be compared" % [n for n in REF_USED if n in mine]
+                notes.append(m2); log(m2)
 
     # 2. Coq build, forced re-check of this property's Props file
     force = ["Props/%s.v" % pid] + spec.get("force", [])
